@@ -305,11 +305,17 @@ class Session:
         ts.run = run
         c_read = tc.packetizer.read_message
 
+        self.hold_kex = False
+
         def c_read_message():
             ptype, m = c_read()
             with cv:
                 self.client_got.append(bytes([ptype]) + m.asbytes())
                 cv.notify_all()
+                if ptype == 20 and self.hold_kex:
+                    # the server has started a key re-exchange; keep the client from answering so that further
+                    # client messages are "in flight" between the server's KEXINIT and the client's
+                    cv.wait_for(lambda: not self.hold_kex, WAIT)
             return ptype, m
 
         tc.packetizer.read_message = c_read_message
@@ -372,6 +378,17 @@ class Session:
             return "None"
         return (u.encode("utf-8", "surrogateescape") if isinstance(u, str) else bytes(u)).hex() or "-"
 
+    def server_starts_rekey(self, ptype, payload, env=None):
+        """make the SERVER begin a key re-exchange (its packetizer crosses the byte threshold on the next packet):
+        after handling this message the server sends KEXINIT (in_kex) and goes on reading; the raw client is held
+        from answering, so whatever it sends next is dispatched by a server that is in the middle of a key exchange"""
+        self.hold_kex = True
+        self.ts.packetizer.REKEY_BYTES = 1      # instance attribute: the next packet received triggers the re-key
+        o = self.step(ptype, payload, env)
+        self.ts.packetizer.REKEY_BYTES = pow(2, 29)
+        o["in_kex"] = bool(self.ts.in_kex)
+        return o
+
     def rekey(self, env=None):
         """client-initiated key re-exchange (Transport.renegotiate_keys on the raw client), observed like a step"""
         self.server.env.clear()
@@ -420,6 +437,9 @@ class Session:
         return None
 
     def close(self):
+        with self.cv:
+            self.hold_kex = False
+            self.cv.notify_all()
         try:
             self.tc.close()
         except Exception:
@@ -920,10 +940,13 @@ def run_real(make_steps, gss_kex):
             st["seq"] = seq
             if st.get("op") == "rekey":
                 o = sess.rekey(st["env"])
+            elif st.get("op") == "server-rekey-start":
+                o = sess.server_starts_rekey(st["ptype"], st["payload"], st["env"])
+                st["in_kex_observed"] = o["in_kex"]
             else:
                 o = sess.step(st["ptype"], st["payload"], st["env"])
             obs.append(o)
-        w = sess.wire_consistent()
+        w = None if sess.hold_kex else sess.wire_consistent()
         if w is not None and obs:
             obs[-1]["wire"] = w
         return sess.session_id, steps, obs
@@ -934,7 +957,8 @@ def run_real(make_steps, gss_kex):
 def canon_real(o, prev_exc):
     exc = o["exc"]
     cbs = [c for c in o["cbs"] if not c.startswith("gss:")]
-    return {"cbs": "|".join(cbs), "sent": ",".join(x.hex() for x in o["sent"]),
+    # a KEXINIT the server sends on its own (re-key) belongs to the kex layer, not to the model's outputs
+    return {"cbs": "|".join(cbs), "sent": ",".join(x.hex() for x in o["sent"] if x[:1] != b"\x14"),
             "active": int(o["active"]), "authed": int(o["authed"]), "chans": o["nchan"],
             "excname": exc, "wire": o.get("wire"), "username": o.get("username"),
             # calls into the (stub) GSS context, in order, interleaved position relative to callbacks kept in "order"
